@@ -75,6 +75,9 @@ func (b *builder) run() {
 					if svc.Path != "" {
 						Path(svc.Path)
 					}
+					for _, p := range svc.Paths {
+						Path(p)
+					}
 					b.responses(svc.HTTPErrs)
 				})
 			}
